@@ -17,7 +17,7 @@ COQ_CHECK = 'Balancer.check_case'
 COQ_EXPLAIN = 'Balancer.explain_case'
 SHARD = 40
 WORKERS = 6
-RULE = ('25% with channels whose Close() fails in-flight requests synchronously, 20% with leaves whose Close() raises; 30% of the real-aperture histories with slow-opening channels; 70% with fresh endpoint objects per notification; completions whose caller raises or dispatches re-entrantly from its handler; 25% of the histories run (monitor only, not sent to the Coq model) on a REAL ApertureBalancerSink: min_size 1-3 of 4-8 servers, idle servers outside the aperture, no jitter, fake clock, 30% with load-driven resizing - the aperture is loaded, the least-loaded member\'s channel is taken down and requests are dispatched (expansion on node-down), checked by the least-loaded oracle over the aperture members; 40% of the rest go through the real ClientTimeoutSink, 10% use a provider with endpoint_name; seeded random histories over 1-12 members (+ up to 3 spare endpoints): 20-200 relative operations drawn from phase '
+RULE = ('audit additions: a second, independent balancer instance working in the same process (20%); channels that fail a request INLINE inside AsyncProcessRequest when closed (25%, recorded as Dispatch then Complete) with callers that retry from inside their failure handler (also on NoMembersError); callers whose handler raises a BaseException; channels whose Open() fails (every n-th, asynchronously reported) or raises synchronously during a join; the caller of a request failed inside Close() retrying from inside it; initial channel state Busy; (thorough) 2% histories of 600-1200 operations; real-aperture histories record hub continuations as steps of their own; 25% with channels whose Close() fails in-flight requests synchronously, 20% with leaves whose Close() raises; 30% of the real-aperture histories with slow-opening channels; 70% with fresh endpoint objects per notification; completions whose caller raises or dispatches re-entrantly from its handler; 25% of the histories run (monitor only, not sent to the Coq model) on a REAL ApertureBalancerSink: min_size 1-3 of 4-8 servers, idle servers outside the aperture, no jitter, fake clock, 30% with load-driven resizing - the aperture is loaded, the least-loaded member\'s channel is taken down and requests are dispatched (expansion on node-down), checked by the least-loaded oracle over the aperture members; 40% of the rest go through the real ClientTimeoutSink, 10% use a provider with endpoint_name; seeded random histories over 1-12 members (+ up to 3 spare endpoints): 20-200 relative operations drawn from phase '
         'profiles (load-up, drain-the-least-loaded-member-to-idle [the F3 pattern], channel flapping incl. faults, '
         'join/leave churn, steady), completion by reply/error/timeout/direct context call, second completions, random '
         'randint outcomes, initial channel state Open/Idle/Closed, 15% on ApertureBalancerSink with all members active; '
